@@ -61,6 +61,16 @@ def run(ctx):
     rule_R6(ctx, repo, eng, imm, mut)
     rule_R7(ctx, repo, imm, mut)
     rule_R8(ctx, repo, eng)
+    # equality / identifiers of the same value must not depend on which of the two classes holds it (C02's obligations)
+    from . import c02
+    c02.rule_T5(ctx, repo)
+    ctx.rules[-1].id = 'C09.T5'
+    for i_ in ctx.rules[-1].instances:
+        i_.rule = 'C09.T5'
+    c02.rule_T3(ctx, repo, eng)
+    ctx.rules[-1].id = 'C09.T3'
+    for i_ in ctx.rules[-1].instances:
+        i_.rule = 'C09.T3'
     ctx.assume('Python object model: __slots__ classes without __dict__, tuple/bytes/int are immutable')
     ctx.not_decided += ['interleavings as such: decided through ownership (who may write, what is copied, what is cached)']
 
@@ -248,6 +258,39 @@ def rule_R3(ctx, repo, base, imm, mut):
         ok = isinstance(v, FuncRef) and v.info is ser.methods.get(nm)
         r.check(ok, key, common.site_of(rfi, rebinds[nm]), '%s rebound to Serializable.%s' % (nm, nm),
                 '__make_mutable rebinds %s to `%s`, not to the uncached Serializable.%s' % (nm, norm(rebinds[nm]), nm))
+    rule_cached_value_agrees(r, repo, base, ser)
+
+
+def rule_cached_value_agrees(r, repo, base, ser):
+    """(d) what ImmutableSerializable remembers is what Serializable computes: a mutable object answers through the uncached
+    method, an immutable one of equal value through the cached one - if the two compute different things, equal objects
+    get different hashes / identifiers (a dict keyed by COutPoint is then missed by the prevout of a mutable input)"""
+    for nm, fi in sorted(base.methods.items()):
+        rd, wr = cache_use(fi)
+        twin = ser.methods.get(nm)
+        if not (rd or wr) or twin is None:
+            continue
+        stored = None
+        for n in walk_no_nested(fi.node):
+            if isinstance(n, ast.Call) and norm(n.func) == 'object.__setattr__' and len(n.args) == 3:
+                stored = common.resolved(fi, n.args[2], repo)
+                if isinstance(stored, ast.Name):
+                    # a local assigned on both arms of the try (read from the slot / computed): the computed one
+                    vals = [a.value for a in walk_no_nested(fi.node) if isinstance(a, ast.Assign) and len(a.targets) == 1 and norm(a.targets[0]) == stored.id
+                            and not norm(a.value).startswith('self._cached')]
+                    if len(vals) == 1:
+                        stored = common.resolved(fi, vals[0], repo)
+        trets = [n.value for n in walk_no_nested(twin.node) if isinstance(n, ast.Return) and n.value is not None]
+        key = 'agrees:%s' % nm
+        if stored is None or len(trets) != 1:
+            r.undecided(key, fi.site, 'cached value of %s not identified' % nm)
+            continue
+        st = norm(stored)
+        via_super = st in ('super(ImmutableSerializable, self).%s()' % nm, 'super().%s()' % nm, 'Serializable.%s(self)' % nm)
+        same = st == norm(common.resolved(twin, trets[0], repo))
+        r.check(via_super or same, key, fi.site, 'remembers what Serializable.%s computes' % nm,
+                'ImmutableSerializable.%s remembers `%s`, Serializable.%s (the version every mutable class answers with) computes `%s`: equal objects, one mutable and one immutable, disagree'
+                % (nm, st, nm, norm(trets[0])))
 
 
 # ------------------------------------------------------------------------------------------------ R4
